@@ -33,6 +33,9 @@ func checkC07(c *Ctx) {
 	r033(c, "R07.9 gate-before-drain-and-joins")
 	// a rollout deploy updates the LIVE service, so requests held by a pause see the new rollout targets when released
 	rRolloutDeployOnLive(c, "R07.10 rollout-deploy-updates-the-live-service")
+	// "on stop it is answered 503 with the stop message": the message a held request is released with reaches the page
+	// rendered for that request, and only as template data (shared with C08)
+	r083(c, "R07.11 stop-message-reaches-the-page")
 }
 
 // rRolloutDeployOnLive: SetRolloutTargets hands deployTargetsIntoService the service it looked up (not a copy of it): held
